@@ -140,6 +140,71 @@ type Case struct {
 	Ops    []Val  `json:"ops"`
 	Obs    []Obs  `json:"obs,omitempty"`
 	Obs2   []Obs  `json:"obs2,omitempty"`
+	Draws  []Draw `json:"draws,omitempty"`
+}
+
+// Draw is one direct call on a real rand.Rand (family "draws").  F: int63n intn float64.
+type Draw struct {
+	F string `json:"f"`
+	N int64  `json:"n,omitempty"`
+	R int64  `json:"r"`
+}
+
+func runDraws(c *Case) {
+	r := rand.New(rand.NewSource(c.Seed))
+	for i := range c.Draws {
+		d := &c.Draws[i]
+		switch d.F {
+		case "int63n":
+			d.R = r.Int63n(d.N)
+		case "intn":
+			d.R = int64(r.Intn(int(d.N)))
+		case "float64":
+			d.R = int64(r.Float64() * (1 << 63))
+		}
+	}
+}
+
+func drawsTerm(ds []Draw) string {
+	el := make([]string, len(ds))
+	for i, d := range ds {
+		switch d.F {
+		case "int63n":
+			el[i] = fmt.Sprintf("DInt63n %d %d", d.N, d.R)
+		case "intn":
+			el[i] = fmt.Sprintf("DIntn %d %d", d.N, d.R)
+		default:
+			el[i] = fmt.Sprintf("DFloat %d", d.R)
+		}
+	}
+	return vh.List(el)
+}
+
+func randDraws(r *vh.Rand) Case {
+	c := Case{Family: "draws", NoSync: true, Seed: int64(r.U64()>>1) | 1}
+	for k := 6 + r.Intn(10); k > 0; k-- {
+		switch r.Pick(4, 3, 3, 2, 2) {
+		case 0: // Int63n with about one rejection in two
+			c.Draws = append(c.Draws, Draw{F: "int63n", N: (int64(1) << 62) + 1 + int64(r.U64()%(1<<uint(1+r.Intn(60))))})
+		case 1: // Intn below 2^31 (Int31n), about one rejection in two
+			c.Draws = append(c.Draws, Draw{F: "intn", N: (int64(1) << 30) + 1 + int64(r.U64()%(1<<uint(1+r.Intn(29))))})
+		case 2: // powers of two and small moduli
+			n := int64(1) << uint(r.Intn(62))
+			if r.Chance(1, 2) {
+				n = int64(1 + r.Intn(1000))
+			}
+			f := "int63n"
+			if n < (1<<31) && r.Chance(1, 2) {
+				f = "intn"
+			}
+			c.Draws = append(c.Draws, Draw{F: f, N: n})
+		case 3: // Intn above 2^31 goes through Int63n
+			c.Draws = append(c.Draws, Draw{F: "intn", N: (int64(1) << 31) + int64(r.U64()%(1<<40))})
+		case 4:
+			c.Draws = append(c.Draws, Draw{F: "float64"})
+		}
+	}
+	return c
 }
 
 // ---------------------------------------------------------------------------
@@ -648,8 +713,12 @@ func caseTerm(n *vh.Names, c Case) string {
 			g += need(c, i)
 		}
 	}
-	return fmt.Sprintf("mkCase %s %s %s %s %d%%nat %s %s", vh.Bool(c.Client), vh.List(vals),
-		zs(tapeOf(c.Seed, g)), vh.Bool(c.NoSync), c.Steps, obsList(n, c.Obs), obsList(n, c.Obs2))
+	g += 6 * len(c.Draws)
+	if len(c.Draws) > 0 {
+		g += 60
+	}
+	return fmt.Sprintf("mkCase %s %s %s %s %d%%nat %s %s %s", vh.Bool(c.Client), vh.List(vals),
+		zs(tapeOf(c.Seed, g)), vh.Bool(c.NoSync), c.Steps, obsList(n, c.Obs), obsList(n, c.Obs2), drawsTerm(c.Draws))
 }
 
 // ---------------------------------------------------------------------------
@@ -947,7 +1016,7 @@ func nontrivial(c Case) bool {
 			k++
 		}
 	}
-	return k >= 3 && len(c.Ops) >= 1
+	return (k >= 3 && len(c.Ops) >= 1) || len(c.Draws) >= 3
 }
 
 func canonical(c Case) string {
@@ -967,6 +1036,10 @@ type emitter struct {
 func (e *emitter) add(c Case, what string) {
 	c.Obs = runOnce(c)
 	c.Obs2 = runOnce(c)
+	runDraws(&c)
+	for _, d := range c.Draws {
+		e.meta.Hist("draw:" + d.F)
+	}
 	e.cf.Add(caseTerm(e.cf.Names, c), c)
 	for _, v := range c.Ops {
 		e.meta.Hist("kind:" + v.K + "/" + v.D)
@@ -1025,7 +1098,7 @@ func main() {
 	if devnull != nil {
 		os.Stderr = devnull // glog of fake/gnmi (log.Errorf on every stream end)
 	}
-	meta := vh.NewMeta("corpus cases; seeded random configurations of 0..5 values of every kind (int/uint/double/string/string-list/bool/sync/delete) with range, list (random or rotating) or no distribution, value deltas, repeat in {-1,0,1,2,3,5}, shared and distinct small initial timestamps, timestamp deltas 0..6 (occasionally up to 2^45), global and per-value seeds (shared, equal, distinct), with and without the injected sync; each run for 6..35 steps through queue.New/Add/Next and through fake/gnmi Client.Run; an 'edge' family adds one documented error or boundary shape per case. distinct = distinct configuration+seed+steps; non-trivial = at least 3 values emitted")
+	meta := vh.NewMeta("corpus cases; seeded random configurations of 0..5 values of every kind (int/uint/double/string/string-list/bool/sync/delete) with range, list (random or rotating) or no distribution, value deltas, repeat in {-1,0,1,2,3,5}, shared and distinct small initial timestamps, timestamp deltas 0..6 (occasionally up to 2^45), global and per-value seeds (shared, equal, distinct), with and without the injected sync; each run for 6..35 steps through queue.New/Add/Next and through fake/gnmi Client.Run; an 'edge' family adds one documented error or boundary shape per case; a 'draws' family calls Int63n/Intn/Float64 of a real rand.Rand directly with moduli that make the rejection loops run (validation of the math/rand port). distinct = distinct configuration+seed+steps; non-trivial = at least 3 values emitted")
 	e := &emitter{dir: o.Out, cf: vh.NewCaseFile(), meta: meta, limit: 400}
 
 	if o.Replay != "" {
@@ -1058,11 +1131,14 @@ func main() {
 	}
 
 	r := vh.NewRand(o.Seed)
-	nq, nc, ne := 1500, 900, 600
+	nq, nc, ne, nd := 1800, 1100, 700, 200
 	if o.Thorough() {
-		nq, nc, ne = 20000, 10000, 8000
+		nq, nc, ne, nd = 20000, 10000, 8000, 3000
 	}
-	rq, rc, re := r.Fork(), r.Fork(), r.Fork()
+	rq, rc, re, rd := r.Fork(), r.Fork(), r.Fork(), r.Fork()
+	for i := 0; i < nd; i++ {
+		e.add(randDraws(rd), "")
+	}
 	for i := 0; i < nq; i++ {
 		c, w := randCase(rq, false, false)
 		e.add(c, w)
